@@ -23,7 +23,7 @@ pub fn check() -> Check {
         floor_thorough: 1_000_000,
         rule: "G1: every token list of length <= 3 over all tokens of <= 3 symbols, of length <= 2 over all tokens of <= 4 symbols (thorough: <= 5 symbols) and of length <= 4 over all tokens of <= 2 symbols \
                from {dash, a, e-acute, bitcoin sign, G-clef, space} plus the empty token, classified by ArgList (built from the NUL-joined raw form, independent of the tokenizer) and compared with a reference classifier; \
-               the same over the length-boundary characters U+07FF, U+0800, U+FFFF, U+10000, U+10FFFD; every scalar value U+0001..U+10FFFF alone, leading, after one and two dashes and inside a cluster; G2: random lists of up to 12 tokens, both through ArgList and typed (quoted) through a whole Cli to the handler. The iterator must also be fused. \
+               the same over the length-boundary characters U+07FF, U+0800, U+FFFF, U+10000, U+10FFFD; every scalar value U+0001..U+10FFFF alone, leading, after one and two dashes and inside a cluster; lists of 254..513 (thorough: also 65534..65537) tokens and clusters of that many options; for every enumerated and random list the iterator driven through skip / nth / fold / count / last after k plain next() calls agrees with the plain loop; G2: random lists of up to 12 tokens, both through ArgList and typed (quoted) through a whole Cli to the handler. The iterator must also be fused. \
                Non-trivial = the list contains `--`, a cluster with a multi-byte character, `-` alone, an empty token or a token starting with three dashes; distinct by list content.",
         assumptions: &[
             "tokens contain no NUL (NUL is the internal separator and cannot be typed)",
@@ -71,10 +71,62 @@ fn real_classify(list: &[String]) -> Result<Vec<RArg>, String> {
     Ok(out)
 }
 
+fn conv(a: Arg<'_>) -> RArg {
+    match a {
+        Arg::DoubleDash => RArg::DoubleDash,
+        Arg::LongOption(n) => RArg::Long(n.to_string()),
+        Arg::ShortOption(c) => RArg::Short(c),
+        Arg::Value(v) => RArg::Value(v.to_string()),
+    }
+}
+
+/// The classification is what the iterator yields, however it is driven: `nth`, `skip`, `fold` / `for_each`, `count`, `last`
+/// after k plain `next()` calls (also k in the middle of a cluster, or just behind `--`) must agree with the plain loop.
+fn idioms_agree(list: &[String], base: &[RArg]) -> Result<(), (String, String)> {
+    let raw = list.join("\0");
+    let args = ArgList::new(Tokens::from_raw(&raw, list.is_empty()));
+    for k in 0..=base.len().min(5) {
+        let rest = &base[k..];
+        let skipped: Vec<RArg> = args.args().skip(k).map(conv).collect();
+        if skipped != rest {
+            return Err((format!("args().skip({}) yields {:?}", k, rest), format!("{:?}", skipped)));
+        }
+        let nth = args.args().nth(k).map(conv);
+        if nth.as_ref() != base.get(k) {
+            return Err((format!("args().nth({}) is {:?}", k, base.get(k)), format!("{:?}", nth)));
+        }
+        let mut it = args.args();
+        for _ in 0..k {
+            it.next();
+        }
+        let folded: Vec<RArg> = it.fold(Vec::new(), |mut v, a| {
+            v.push(conv(a));
+            v
+        });
+        if folded != rest {
+            return Err((format!("{} x next() then fold yields {:?}", k, rest), format!("{:?}", folded)));
+        }
+        let mut it = args.args();
+        for _ in 0..k {
+            it.next();
+        }
+        let count = it.count();
+        let mut it = args.args();
+        for _ in 0..k {
+            it.next();
+        }
+        let last = it.last().map(conv);
+        if count != rest.len() || last.as_ref() != rest.last() {
+            return Err((format!("{} x next() then count() = {}, last() = {:?}", k, rest.len(), rest.last()), format!("count {} last {:?}", count, last)));
+        }
+    }
+    Ok(())
+}
+
 fn compare(list: &[String]) -> Result<(), (String, String)> {
     let exp = ref_classify(list);
     match real_classify(list) {
-        Ok(got) if got == exp => Ok(()),
+        Ok(got) if got == exp => idioms_agree(list, &got),
         Ok(got) => Err((format!("{:?}", exp), format!("{:?}", got))),
         Err(e) => Err((format!("{:?}", exp), e)),
     }
@@ -237,6 +289,42 @@ fn run_shard(ctx: &ShardCtx) {
         }
         ctx.class_n("all-scalar sweep (lists)", n);
         ctx.exhaustive("every scalar value (U+0001..U+10FFFF) alone, leading, after one and two dashes and inside a cluster", !ctx.failed());
+    }
+    // long lists and long clusters (counts beyond 255, and beyond 65535 in the thorough tier)
+    if !ctx.failed() {
+        let mut sizes: Vec<usize> = vec![254, 255, 256, 257, 258, 300, 511, 512, 513];
+        if ctx.tier == vmodel::engine::Tier::Thorough {
+            sizes.extend([65_534, 65_535, 65_536, 65_537]);
+        }
+        let pool = ["a", "-b", "--c", "", "-", "é", "--", "-xy"];
+        for (si, n) in sizes.iter().enumerate() {
+            if !ctx.mine(si as u64) {
+                continue;
+            }
+            for variant in 0..3usize {
+                let list: Vec<String> = match variant {
+                    0 => (0..*n).map(|i| pool[(i * 7 + si) % pool.len()].to_string()).collect(),
+                    1 => (0..*n).map(|i| format!("v{}", i)).collect(),
+                    _ => vec![format!("-{}", "ab₿".repeat(*n / 3 + 1)), "tail".to_string()],
+                };
+                ctx.count_eval();
+                let exp = ref_classify(&list);
+                match real_classify(&list) {
+                    Ok(got) if got == exp => ctx.nontrivial_enum(|| json!({"tokens_in_list": list.len(), "items": exp.len(), "first": list.first()})),
+                    Ok(got) => {
+                        let at = got.iter().zip(exp.iter()).position(|(a, b)| a != b).unwrap_or(got.len().min(exp.len()));
+                        ctx.fail(Failure::new("classify-enum", json!({"tokens": list}), format!("{} items for a list of {} tokens (first difference at item {}: {:?})", exp.len(), list.len(), at, exp.get(at)), format!("{} items, there {:?}", got.len(), got.get(at))));
+                    }
+                    Err(e) => ctx.fail(Failure::new("classify-enum", json!({"tokens": list}), format!("{} items", exp.len()), e)),
+                }
+                if ctx.failed() {
+                    break;
+                }
+            }
+            if ctx.failed() {
+                break;
+            }
+        }
     }
     let enumerated = ctx.res.borrow().evaluations;
     ctx.class_n("enumerated", enumerated);
